@@ -569,15 +569,36 @@ pub open spec fn eps_rel_seq<'a, T: DeserializeInner>(d: Seq<<T as DeserializeIn
 pub assume_specification<T, A: Allocator>[ Vec::<T, A>::set_len ](v: &mut Vec<T, A>, n: usize)
     ensures final(v)@.len() == n;
 
-/// std (unsafe): a slice viewed as bytes covers exactly its memory
+/// the memory image of a sequence of T and the bytes of a sequence of U (uninterpreted)
+pub uninterp spec fn image_seq<T>(vs: Seq<T>) -> Seq<u8>;
+pub uninterp spec fn as_bytes<U>(us: Seq<U>) -> Seq<u8>;
+/// the elements of a zero-copy sequence as decoded from their memory image (uninterpreted)
+pub uninterp spec fn zc_seq<T>(bytes: Seq<u8>, len: nat) -> Seq<T>;
+pub axiom fn axiom_as_bytes_u8()
+    ensures forall|b: Seq<u8>| #[trigger] as_bytes::<u8>(b) == b;
+/// decoding a memory image gives the elements back (the image determines the elements)
+pub axiom fn axiom_zc_image<T>()
+    ensures forall|vs: Seq<T>| #[trigger] zc_seq::<T>(image_seq::<T>(vs), vs.len()) == vs;
+pub axiom fn axiom_zc_seq<T>()
+    ensures forall|b: Seq<u8>, len: nat| (#[trigger] zc_seq::<T>(b, len)).len() == len;
+/// platform axiom
+pub axiom fn axiom_u8_size()
+    ensures vstd::layout::size_of::<u8>() == 1;
+
+/// std (unsafe): a slice viewed as bytes covers exactly its memory, and what is written
+/// through the middle part is the memory of the slice
 pub assume_specification<T, U>[ <[T]>::align_to_mut::<U> ](s: &mut [T]) -> (r: (&mut [T], &mut [U], &mut [T]))
     ensures r.1@.len() * vstd::layout::size_of::<U>() == old(s)@.len() * vstd::layout::size_of::<T>(),
-        final(s)@.len() == old(s)@.len();
+        final(s)@.len() == old(s)@.len(),
+        image_seq::<T>(final(s)@) == as_bytes::<U>(final(r.1)@);
 
 /// bytes occupied by a sequence of `len` zero-copy elements of type T at offset pos:
 /// pointer-width length, minimal gap to a multiple of T's unit, len * size_of::<T>()
+pub open spec fn seq_zero_pad<T: MaxSizeOf>(pos: nat) -> nat {
+    pad_spec((pos + 8) as int, T::unit() as int) as nat
+}
 pub open spec fn seq_zero_span<T: MaxSizeOf>(pos: nat, len: nat) -> nat {
-    (8 + pad_spec((pos + 8) as int, T::unit() as int) + len * vstd::layout::size_of::<T>()) as nat
+    8 + seq_zero_pad::<T>(pos) + len * vstd::layout::size_of::<T>()
 }
 
 //@item epserde/src/deser/helpers.rs props=C01,C07,C11 name=deserialize_full_vec_zero optional <<pub fn deserialize_full_vec_zero<T: DeserializeInner + ZeroCopy>(>>
@@ -600,6 +621,8 @@ pub open spec fn seq_zero_span<T: MaxSizeOf>(pos: nat, len: nat) -> nat {
 //@|            match r {
 //@|                // exactly the announced number of elements, exactly the bytes of the sequence consumed
 //@|                Ok(v) => s.len() >= span && v@.len() == len
+//@|                    // the memory of the vector holds exactly the bytes that follow the gap
+//@|                    && image_seq::<T>(v@) == s.skip(8).skip(seq_zero_pad::<T>(old(backend).rpos()) as int).take((len * vstd::layout::size_of::<T>()) as int)
 //@|                    && final(backend).rem() =~= s.skip(span as int)
 //@|                    && final(backend).rpos() == old(backend).rpos() + span,
 //@|                // a complete sequence is never refused by a reliable reader (C01); a truncated one always is (C11)
@@ -607,6 +630,8 @@ pub open spec fn seq_zero_span<T: MaxSizeOf>(pos: nat, len: nat) -> nat {
 //@|                    || (e is AlignmentError && old(backend).is_slice()),
 //@|            }
 //@|        }),
+//@  body_prefix
+//@|    proof { axiom_as_bytes_u8(); }
 //@end
 
 
